@@ -353,9 +353,13 @@ pub fn evaluate(e: &[Ev], res: Option<&mut CaseResult>) -> Option<(String, Value
     let mut kinds: Vec<String> = e.iter().map(Ev::kind).collect();
     kinds.sort();
     let outs: Vec<String> = distinct.iter().map(|s| s.split(" | ").next().unwrap_or("").to_string()).collect::<BTreeSet<_>>().into_iter().collect();
+    // The signature names the multiset, what the single canonical fold gives,
+    // which delivery families disagree with it, and all outcomes seen: a
+    // change that moves any of these is a different violation.
     let sig = format!(
-        "combine:[{}] differs by {{{}}} -> {{{}}}",
+        "combine:[{}] fold gives {} but {{{}}} differ -> {{{}}}",
         kinds.join(", "),
+        reference.split(" | ").next().unwrap_or(""),
         fams.iter().copied().collect::<Vec<_>>().join(","),
         outs.join(" | ")
     );
